@@ -96,6 +96,7 @@ def api_main(ctx, kinds=("q", "p", "h")):
     cs += corpora.fam_long(s, kinds)
     cs += corpora.fam_pairs(s, kinds, quick=q)
     cs += corpora.fam_name_pairs(s, kinds)
+    cs += [c for c in start_tails(2 if q else 3) if c[2] in kinds]
     return cs
 
 
